@@ -218,7 +218,7 @@ func muxNewWorld(conc muxConc) (*muxWorld, error) {
 		if e == conc.TimerEp {
 			idle = muxIdle
 		}
-		cfg := SessionConfig{Obfuscator: obfs, Unordered: conc.Unordered, Singleplex: conc.Singleplex,
+		cfg := SessionConfig{Obfuscator: obfs, Unordered: conc.Unordered, Singleplex: conc.Singleplex && e == "c", // as deployed: only the client side
 			MsgOnWireSizeLimit: 16401, InactivityTimeout: idle}
 		w.sesh[e] = MakeSession(uint32(7), cfg)
 	}
